@@ -390,6 +390,22 @@ pub fn synth_vocab(rng: &mut Rng, samples: &[Vec<u8>]) -> VocabSpec {
             }
         }
     }
+    // runs of one multi-byte character: length in characters and length in bytes differ
+    if rng.chance(0.3) {
+        for s in ["é", "日"] {
+            for k in [2usize, 3, 5, 6, 7, 9, 10, 11, 16] {
+                if rng.chance(0.5) {
+                    extra.push(s.repeat(k).into_bytes());
+                }
+            }
+        }
+    }
+    // second ids for single bytes (byte-fallback tokens <0xNN> next to ordinary one-character tokens)
+    if !alphabet.is_empty() && rng.chance(0.3) {
+        for _ in 0..rng.range(1, 6) {
+            extra.push(vec![*rng.pick(&alphabet)]);
+        }
+    }
     rng.shuffle(&mut extra);
     words.extend(extra);
     let eos = push_specials(&mut words);
